@@ -84,7 +84,8 @@ def construct_volume_t4(mcnp_parser, lattice_params, cell_cache_path,
                   len(mcnp_dict), max(mcnp_dict)) as progress:
         for i, key in enumerate(mcnp_dict):
             progress.update(i, key)
-            new_geom = conv.pot_complement(mcnp_dict[key].geometry)
+            new_geom = conv.pot_complement(mcnp_dict[key].geometry,
+                                           mcnp_dict[key].universe)
             mcnp_dict[key].geometry = new_geom
 
     # treat LAT
